@@ -547,6 +547,9 @@ def run_api_period(acc, case, selector, ops, chosen, chosen_name, e):
     return "ok"
 
 
+_SHARED = {}
+
+
 def run_run_period(acc, case, selector, period, chosen, chosen_name, e):
     from . import simenv
     gate = simenv.Gate()
@@ -571,7 +574,11 @@ def run_run_period(acc, case, selector, period, chosen, chosen_name, e):
     if how == "fn":
         kw["iter_fn"] = iter_fn
     elif how == "list":
-        kw["iter_fn"] = [iter_fn, lambda: None]          # the documented "function or list of functions"
+        # the documented "function or list of functions"; a robot keeps ONE list object and passes it for every period
+        if _SHARED.get("uid") != case["uid"]:
+            _SHARED.update({"uid": case["uid"], "list": [lambda: _SHARED["fn"](), lambda: None]})
+        _SHARED["fn"] = iter_fn
+        kw["iter_fn"] = _SHARED["list"]
     if period.get("watchdog") == "simple":
         from robotpy_ext.misc.simple_watchdog import SimpleWatchdog
         kw["watchdog"] = SimpleWatchdog(P / 1e6)
